@@ -12,8 +12,8 @@ open Rj
 the listings, any behaviours and prompt answers, dry run or not, any moment at which a destination
 error becomes visible. -/
 theorem C02_src_trace (w : Wrap) (sc : Scenario) : ∀ c ∈ (run w sc).srcTrace, c.readOnly = true := by
-  have A : Allowed sc.dryRun (fun c => c.readOnly = true) (fun _ => True) :=
-    ⟨fun _ => rfl, fun _ => rfl, fun _ _ => rfl, fun _ => trivial, fun _ => trivial, fun _ => trivial, fun _ _ _ => trivial⟩
+  have A : Allowed sc.dryRun (fun c => c.readOnly = true) (fun _ => True) (fun f => compileFilters w.pre w.post sc.filters = some f) :=
+    ⟨fun _ => rfl, fun _ _ => rfl, fun _ _ => rfl, fun _ => trivial, fun _ _ => trivial, fun _ => trivial, fun _ _ _ => trivial⟩
   exact (run_ok w sc A).1
 
 /-- no mutating command is ever sent to the source -/
@@ -32,8 +32,8 @@ theorem C02_src_sites :
 destination only, at most once, never in a dry run. -/
 theorem C02_ancestors_not_in_dry_run (w : Wrap) (sc : Scenario) (hd : sc.dryRun = true) :
     Cmd.createRootAncestors ∉ (run w sc).destTrace := by
-  have A : Allowed sc.dryRun (fun _ => True) (fun c => c ≠ .createRootAncestors) :=
-    ⟨fun _ => trivial, fun _ => trivial, fun _ _ => trivial, fun _ => by simp, fun _ => by simp, fun _ => by simp,
+  have A : Allowed sc.dryRun (fun _ => True) (fun c => c ≠ .createRootAncestors) (fun f => compileFilters w.pre w.post sc.filters = some f) :=
+    ⟨fun _ => trivial, fun _ _ => trivial, fun _ _ => trivial, fun _ => by simp, fun _ _ => by simp, fun _ => by simp,
      fun h => by simp [hd] at h⟩
   intro h
   exact (run_ok w sc A).2 _ h rfl
